@@ -100,6 +100,11 @@ func doReplay(m *Model, file string) int {
 }
 
 var replayers = map[string]func(rn *Runner, rp *Replay) (impl, model string, agree bool){
+	"callerresult": func(rn *Runner, rp *Replay) (string, string, bool) {
+		d := rn.NewDoc(rp.Events)
+		m := callerResultCases(d.Root, rp.Text)
+		return m, "", m == ""
+	},
 	"query": func(rn *Runner, rp *Replay) (string, string, bool) {
 		d := rn.NewDoc(rp.Events)
 		env := rp.Env
